@@ -39,6 +39,7 @@ struct RunState {
     Slot slots[N_SLOTS];
     UtestShell* outsideShell;
     TestOutput* primaryOutput;
+    TestRegistry* reg; Vec<TestPlugin*> pluginObjs; Vec<char> pluginInstalled;
 };
 static RunState RS;
 
@@ -206,6 +207,8 @@ static void execOp(const Group& T, const Op& o) {
     case K_DIE_EXIT: if (PS.inChild) _exit((int)o.a); break;
     case K_DIE_ABORT: if (PS.inChild) { signal(SIGABRT, SIG_DFL); abort(); } break;
     case K_DIE_STOP: if (PS.inChild) raise(SIGSTOP); break;
+    case K_PLUGIN_INSTALL: { size_t p = (size_t)o.a; if (p < RS.pluginObjs.size() && !RS.pluginInstalled[p]) { RS.reg->installPlugin(RS.pluginObjs[p]); RS.pluginInstalled[p] = 1; } break; }
+    case K_PLUGIN_REMOVE: { size_t p = (size_t)o.a; if (p < RS.pluginObjs.size() && RS.pluginInstalled[p]) { RS.reg->removePluginByName(RS.pluginObjs[p]->getName()); RS.pluginInstalled[p] = 0; } break; }
     case K_PTR_SET: UT_PTR_SET(g_tgt[o.a % N_TARGETS], (void*)&g_val[o.b % N_VALUES]); break;
     default: break;
     }
@@ -398,14 +401,18 @@ void executeRun(const Desc& d, Obs& o) {
         SimPlugin* sp = new (::malloc(sizeof(SimPlugin))) SimPlugin(P.sarg(0), (int)p);
         if (!P.arg(0, 1)) sp->disable();
         plugins.push_back(sp);
-        reg.installPlugin(sp);
+        bool late = P.arg(2) != 0;
+        if (!late) reg.installPlugin(sp);
+        RS.pluginObjs.push_back(sp); RS.pluginInstalled.push_back(late ? 0 : (P.arg(1) ? 0 : 1));
     }
+    RS.reg = &reg;
     reg.installPlugin(leak);
     {   // removals by name, at any chain position (the leak plugin sits on top of the scripted ones)
         Vec<size_t> rm; for (size_t p = 0; p < RS.pluginGroups.size(); p++) if (d.groups[(size_t)RS.pluginGroups[p]].arg(1)) rm.push_back(p);
         if (d.pi("remove_rev")) std::reverse(rm.begin(), rm.end());
         for (size_t i = 0; i < rm.size(); i++) { reg.removePluginByName(d.groups[(size_t)RS.pluginGroups[rm[i]]].sarg(0)); fired("plugin_removed"); }
-        o.pluginCount = reg.countPlugins(); o.pluginCountExpected = (int)(RS.pluginGroups.size() - rm.size()) + 1;
+        size_t nLate = 0; for (size_t p = 0; p < RS.pluginGroups.size(); p++) if (d.groups[(size_t)RS.pluginGroups[p]].arg(2)) nLate++;
+        o.pluginCount = reg.countPlugins(); o.pluginCountExpected = (int)(RS.pluginGroups.size() - rm.size() - nLate) + 1;
         for (size_t i = 0; i < rm.size(); i++) if (reg.getPluginByName(d.groups[(size_t)RS.pluginGroups[rm[i]]].sarg(0)) != 0) o.removedStillFound++;
     }
 
@@ -443,7 +450,7 @@ void executeRun(const Desc& d, Obs& o) {
     for (size_t i = 0; i < plugins.size(); i++) { plugins[i]->~SimPlugin(); ::free(plugins[i]); }
     for (size_t i = 0; i < owned.size(); i++) { owned[i]->~UtestShell(); ::free(owned[i]); }
 
-    static const char* const firedNames[K_COUNT] = { 0, 0, 0, "fail_check_cpp", "fail_check_c_longjmp", "throw_std", "throw_foreign", 0, 0, 0, 0, 0, 0, 0, 0, 0, 0, 0, 0, 0, 0, 0, 0, 0, 0, 0 };
+    static const char* const firedNames[K_COUNT] = { 0, 0, 0, "fail_check_cpp", "fail_check_c_longjmp", "throw_std", "throw_foreign", 0, 0, 0, 0, 0, 0, 0, 0, 0, 0, 0, 0, 0, 0, 0, 0, 0, 0, 0, "plugin_installed_mid_run", "plugin_removed_mid_run" };
     for (int k = 0; k < K_COUNT; k++) { if (firedNames[k] && g_fired[k]) fired(firedNames[k], g_fired[k]); g_fired[k] = 0; }
     SimIO& io = simIO();
     o.console = io.console; o.writesAfterClose = io.writesAfterClose; o.badHandle = io.badHandle;
